@@ -153,6 +153,9 @@ func sleepKey(d time.Duration) string {
 	if d >= 5*time.Minute && d <= 9*time.Minute {
 		return "cleaner" // SleepContextPerturb(7 min): 80%..120%
 	}
+	if d == 11*time.Minute {
+		return "sweeper"
+	}
 	return "other"
 }
 
@@ -179,6 +182,7 @@ func buildRemotes(name string) (n1 string, d1 []byte, n2 string, d2 []byte) {
 	r.AppTxn(func(txn *lmdb.Txn) error {
 		inst.NativePut(txn, "d", []byte("b"), 8, false, []byte("rb2"))
 		inst.NativePut(txn, "d", []byte("c"), 9, true, nil)
+		inst.NativePut(txn, "d", []byte("a"), 8, true, nil) // an old deletion of a key the application has re-written since
 		return nil
 	})
 	if _, err := r.Send(); err != nil {
@@ -410,6 +414,9 @@ func Run(cfg Cfg, ctx *explore.Ctx) Result {
 		c.OnlyOnce = cfg.OnlyOnce
 		c.StorageRetryCount = 3
 	}}
+	if cfg.Sweeper {
+		opt.Sweeper = &config.Sweeper{Enabled: true, RetentionDays: 1, Interval: 11 * time.Minute, FirstInterval: 11 * time.Minute, LockDuration: time.Second, ReleaseDuration: time.Second}
+	}
 	if cfg.Cleaner {
 		// the cleaner takes "now" from the real clock: all scripted snapshots (logical clock, 2017) are older than any interval
 		opt.Cleanup = &config.Cleanup{Enabled: true, Interval: 7 * time.Minute, MustKeepInterval: 0, RemoveOldInstancesInterval: time.Second}
@@ -428,6 +435,12 @@ func Run(cfg Cfg, ctx *explore.Ctx) Result {
 		})
 		if _, err := w.A.Send(); err != nil {
 			panic(err)
+		}
+		if cfg.Native {
+			lc, _ := world.HeaderLC(w.A.Env.RawDump(), world.PickNative)
+			w.touched["d/a"] = appVer{val: "x", ts: lc["d"]["a"].TS, at: "setup"}
+		} else {
+			w.touched["d/a"] = appVer{val: "x", at: "setup"}
 		}
 	}
 	w.B.Put(n1, d1)
@@ -667,6 +680,8 @@ func (w *World) policy(appPoints map[string]bool) sched.Policy {
 				recvSleep = p
 			case p.Point == "sleep.cleaner":
 				cleanerSleep = p
+			case p.Point == "sleep.sweeper":
+				// the tomb sweeper's timer does not fire in this scenario (it only enables the load cutoff)
 			case strings.HasPrefix(p.Point, "sleep."):
 				// retry sleeps of downloaders: fire them as background work
 				background = append(background, p)
